@@ -17,6 +17,13 @@ func TestC18(t *testing.T) {
 	defer r.Finish(t)
 	var targets []Target
 	targets = append(targets, ParrotTargets(true)...)
+	// fingerprinted copies of the hybrid-share parrots (the captured share must not be replayed)
+	for _, pn := range []string{"Chrome_115_PQ", "Chrome_120_PQ", "Chrome_131", "Chrome_133", "Firefox_120", "Chrome_102"} {
+		p := ParrotByName(pn)
+		if ft, err := FingerprintedTarget(Target{Name: p.Name, ID: p.ID}, "example.test"); err == nil {
+			targets = append(targets, ft)
+		}
+	}
 	for i := 0; i < mon.Pick(90, 600); i++ {
 		targets = append(targets, RandomizedTarget(i))
 	}
